@@ -63,7 +63,9 @@ func c14Root(p c14p) func() {
 			}
 			st := bs.NewFileSystemDataStore(dir)
 			n := 0
-			st.VerifSetFileNameDraw(func() string { n++; return fmt.Sprintf("new%02d", n) })
+			// the hook only exists under the verif build tag (added through the overlay), so it is
+			// reached through an interface: this file then also type-checks against the plain tree
+			any(st).(interface{ VerifSetFileNameDraw(func() string) }).VerifSetFileNameDraw(func() string { n++; return fmt.Sprintf("new%02d", n) })
 			metaStore, dataStore = st, st
 		default:
 			data := hstore.NewMemData()
